@@ -290,11 +290,15 @@ fn adaptor_program<'x, I: DoubleEndedIterator<Item = &'x Segment>>(mut it: I, wa
     let mut log: Vec<String> = Vec::new();
     let lossy = |x: &Option<Vec<u8>>| x.as_ref().map(|v| String::from_utf8_lossy(v).to_string());
     let by = |s: &'x Segment| s.as_bytes().to_vec();
-    for _ in 0..steps {
+    for step in 0..steps {
         let op = m & 3;
         let k = ((m >> 2) & 3) as usize;
         m >>= 4;
+        // now and then an index at the far end of usize (index arithmetic must not wrap)
+        let huge = (mask >> (40 + step)) & 7 == 0;
         let (name, got, exp): (String, Option<Vec<u8>>, Option<Vec<u8>>) = match op {
+            2 if huge => { dq.clear(); (format!("nth(usize::MAX - {})", k), it.nth(usize::MAX - k).map(by), None) }
+            3 if huge => { dq.clear(); (format!("nth_back(usize::MAX - {})", k), it.nth_back(usize::MAX - k).map(by), None) }
             0 => ("next()".into(), it.next().map(by), dq.pop_front()),
             1 => ("next_back()".into(), it.next_back().map(by), dq.pop_back()),
             2 => {
@@ -346,8 +350,22 @@ fn adaptor_program<'x, I: DoubleEndedIterator<Item = &'x Segment>>(mut it: I, wa
         27 => ("alternate ends until empty", { let mut fr: Vec<Vec<u8>> = Vec::new(); let mut bk: Vec<Vec<u8>> = Vec::new(); loop { match it.next() { Some(s) => fr.push(s.as_bytes().to_vec()), None => break } match it.next_back() { Some(s) => bk.push(s.as_bytes().to_vec()), None => break } if fr.len() + bk.len() > rest.len() + 2 { break; } } bk.reverse(); fr.extend(bk); fr == rest }),
         28 => ("nth(len)", { let n = rest.len(); it.nth(n).is_none() && it.next().is_none() && it.next_back().is_none() }),
         29 => ("nth_back(len)", { let n = rest.len(); it.nth_back(n).is_none() && it.next().is_none() && it.next_back().is_none() }),
-        30 => ("nth(len+k) then next_back", it.nth(rest.len() + k).is_none() && it.next_back().is_none()),
-        _ => ("nth_back(len+k) then next", it.nth_back(rest.len() + k).is_none() && it.next().is_none()),
+        30 => ("nth(len+k) then next_back / skip(usize::MAX) / step_by(usize::MAX)", {
+            match k {
+                0 => it.nth(rest.len()).is_none() && it.next_back().is_none(),
+                1 => it.skip(usize::MAX).next().is_none(),
+                2 => it.step_by(usize::MAX).map(by).collect::<Vec<_>>() == rest.iter().take(1).cloned().collect::<Vec<_>>(),
+                _ => it.take(usize::MAX).map(by).collect::<Vec<_>>() == rest,
+            }
+        }),
+        _ => ("nth_back(len+k) then next / rev().skip(usize::MAX) / nth(usize::MAX) then len", {
+            match k {
+                0 => it.nth_back(rest.len()).is_none() && it.next().is_none(),
+                1 => it.rev().skip(usize::MAX).next().is_none(),
+                2 => it.nth(usize::MAX).is_none() && it.next().is_none() && it.next_back().is_none(),
+                _ => it.nth_back(usize::MAX).is_none() && it.next().is_none() && it.next_back().is_none(),
+            }
+        }),
     };
     if ok { Ok(()) } else { Err(format!("after {} then {} (k={}): differs from the model (remaining {} items)", log.join("."), name, k, rest.len())) }
 }
